@@ -377,6 +377,117 @@ theorem client_good (w : World) (conf : Nat) (g : Good w) : Good { w with client
     · subst h1; exact List.length_replicate
   · exact g.fresh
 
+/-- a new association with empty tables (whatever its other fields) -/
+theorem client_good' (w : World) (c0 : Client) (g : Good w) (hc0 : c0.cache = List.replicate 256 none ∧ c0.replyq = []) :
+    Good { w with clients := w.clients ++ [c0] } := by
+  have hget : ∀ ci c', getCli { w with clients := w.clients ++ [c0] } ci = some c' → getCli w ci = some c' ∨ c' = c0 := by
+    intro ci c' h
+    unfold getCli at h ⊢
+    simp only at h
+    by_cases hlt : ci < w.clients.length
+    · rw [List.getElem?_append_left hlt] at h; exact Or.inl h
+    · rw [List.getElem?_append_right (by omega)] at h
+      right
+      cases hk : ci - w.clients.length with
+      | zero => rw [hk] at h; exact (Option.some.inj h).symm
+      | succ n => rw [hk] at h; cases h
+  have hhold : ∀ o, holders { w with clients := w.clients ++ [c0] } o = holders w o := by
+    intro o
+    unfold holders
+    simp only [List.map_append, List.sum_append, List.map_cons, List.map_nil, List.sum_cons, List.sum_nil]
+    rw [hc0.1, hc0.2, filter_replicate_none 256 o]
+    simp
+  refine ⟨?_, ?_, ?_⟩
+  · exact inv_move w _ _ _ g.inv (fun o => rfl) (fun o => by rw [hhold])
+  · refine ⟨fun si s h => g.wf.slots si s h, ?_, fun si s h => g.wf.nextid si s h⟩
+    intro ci c' h
+    rcases hget ci c' h with h1 | h1
+    · exact g.wf.cache ci c' h1
+    · subst h1; rw [hc0.1]; exact List.length_replicate
+  · exact g.fresh
+
+/-! ### the UDP listener: its pre-allocated request object and its associations -/
+
+/-- the listener's pre-allocated object becomes the one being processed: the pointer becomes an in-flight reference -/
+theorem pending_take (w : World) (fl : Nat → Nat) (o : Nat) (h : Inv w fl) (hp : w.udpPending = some o) :
+    Inv { w with udpPending := none } (fun x => fl x + one o x) := by
+  refine inv_move w { w with udpPending := none } fl _ h (fun _ => rfl) ?_
+  intro x
+  unfold holders
+  simp only [hp, one]
+  by_cases hx : x = o
+  · subst hx; simp; omega
+  · have : ¬ (some o = some x) := fun e => hx (Option.some.inj e).symm
+    simp [hx, this]
+
+/-- a freshly allocated object is parked as the listener's next one: the in-flight reference becomes the pointer -/
+theorem pending_put (w : World) (fl : Nat → Nat) (o : Nat) (h : Inv w (fun x => fl x + one o x)) (hp : w.udpPending = none) :
+    Inv { w with udpPending := some o } fl := by
+  refine inv_move w { w with udpPending := some o } _ fl h (fun _ => rfl) ?_
+  intro x
+  unfold holders
+  simp only [hp, one]
+  by_cases hx : x = o
+  · subst hx; simp; omega
+  · have : ¬ (some o = some x) := fun e => hx (Option.some.inj e).symm
+    simp [hx, this]
+
+theorem udplisten_good (w : World) (g : Good w) (hp : w.udpPending = none) :
+    Good { (newrequest w).1 with udpPending := some (newrequest w).2 } := by
+  have h1 := newrequest_inv w (fun _ => 0) g.inv g.fresh
+  have t1 := tame_newrequest w
+  have t2 : Tame w { (newrequest w).1 with udpPending := some (newrequest w).2 } :=
+    Tame.trans t1 (tame_same (newrequest w).1 { (newrequest w).1 with udpPending := some (newrequest w).2 } rfl rfl rfl)
+  exact ⟨pending_put _ _ _ h1 hp, t2.wf g.wf, t2.fresh g.fresh⟩
+
+theorem udpLoopTop_good (w : World) (g : Good w) : Good (udpLoopTop w) := by
+  unfold udpLoopTop
+  cases hp : w.udpPending with
+  | some o => exact g
+  | none => exact udplisten_good w g hp
+
+theorem good_foldl_removeclient (l : List Nat) (w : World) (g : Good w) : Good (l.foldl removeclient w) := by
+  induction l generalizing w with
+  | nil => exact g
+  | cons x t ih =>
+    simp only [List.foldl_cons]
+    exact ih (removeclient w x) (g.of (removeclient_inv w _ x g.inv) (tame_removeclient w x))
+
+theorem udpAssoc_good (w : World) (conf nasIdx : Nat) (g : Good w) : Good (udpAssoc w conf nasIdx).1 := by
+  unfold udpAssoc
+  simp only
+  -- the refresh of the matching association
+  have g1 : ∀ i, Good (updCli w i fun c => { c with expiry := w.now + udpIdle w conf }) := by
+    intro i
+    refine g.of ?_ (tame_updCli w i _ (fun _ => rfl))
+    exact inv_move w (updCli w i fun c => { c with expiry := w.now + udpIdle w conf }) _ _ g.inv (fun o => getRq_updCli _ _ _ _)
+      (fun o => by rw [holders_updCli_norefs w i (fun c => { c with expiry := w.now + udpIdle w conf }) (fun _ => ⟨rfl, rfl⟩)])
+  repeat' first
+    | exact good_foldl_removeclient _ _ (g1 _)
+    | exact good_foldl_removeclient _ _ g
+    | exact client_good' _ _ (good_foldl_removeclient _ _ (g1 _)) ⟨rfl, rfl⟩
+    | exact client_good' _ _ (good_foldl_removeclient _ _ g) ⟨rfl, rfl⟩
+    | split
+
+theorem udp_handle (A : World) (o : Nat) (f : Rq → Rq) (hf : ∀ r, (f r).refs = r.refs) (gA : Good A) (hp : A.udpPending = some o) :
+    Good (radsrv (updRq { A with udpPending := none } o f) o).1 := by
+  have h1 := pending_take A _ o gA.inv hp
+  have t1 : Tame A { A with udpPending := none } := tame_same A { A with udpPending := none } rfl rfl rfl
+  have r2 : Run (updRq { A with udpPending := none } o f) (fun _ => 0) o :=
+    ⟨updRq_inv _ _ _ _ hf h1, (Tame.trans t1 (tame_updRq _ _ _)).wf gA.wf⟩
+  exact gA.of (radsrv_inv _ _ _ r2) (Tame.trans (Tame.trans t1 (tame_updRq _ _ _)) (tame_radsrv _ _ r2.wf))
+
+attribute [local irreducible] World.udpAssoc World.radsrv World.udpFindConf in
+theorem udpRecv_good (w : World) (n : Nat) (pkt : Bytes) (g : Good w) : Good (udpRecv w n pkt).1 := by
+  unfold udpRecv
+  simp only
+  have ga := fun conf => udpAssoc_good w conf n g
+  repeat' first
+    | exact g
+    | exact ga _
+    | (rename_i hp; exact udp_handle _ _ _ (fun _ => rfl) (ga _) hp)
+    | split
+
 /-- **every operation keeps the counts right** -/
 theorem step_good (w : World) (op : Op) (g : Good w) : Good (step w op) := by
   cases op with
@@ -400,6 +511,9 @@ theorem step_good (w : World) (op : Op) (g : Good w) : Good (step w op) := by
   | radput ok => exact g.of (same_inv w _ _ rfl rfl rfl rfl g.inv) (tame_same w _ rfl rfl rfl)
   | oracle rx rnds => exact g.of (same_inv w _ _ rfl rfl rfl rfl g.inv) (tame_same w _ rfl rfl rfl)
   | waitbound si => exact writerWaitBound_good w si g
+  | udplisten => exact udpLoopTop_good w g
+  | udpnas ip => exact g.of (same_inv w _ _ rfl rfl rfl rfl g.inv) (tame_same w _ rfl rfl rfl)
+  | udpsend n pkt => exact udpLoopTop_good _ (udpRecv_good w n pkt g)
 
 /-! ### every history -/
 
@@ -495,5 +609,6 @@ example : Initial { H := { md5 := fun _ => [], hmacMd5 := fun _ _ => [] }, rx :=
     · rcases List.mem_cons.mp hs with rfl | hs
       · exact ⟨rfl, rfl⟩
       · exact absurd hs (List.not_mem_nil), rfl⟩
+
 
 end Rsp.Props.C17
